@@ -3,11 +3,62 @@ package gen
 import (
 	"encoding/base64"
 	"fmt"
+	"sync"
 
 	"pgregory.net/rapid"
 
 	"verifharness/kit/keys"
+	"verifharness/kit/refdoc"
 )
+
+var (
+	oddMu   sync.Mutex
+	oddKeys []*keys.Key
+)
+
+// OddEd25519 returns Ed25519 keys whose raw bytes or base58 spelling are unusual: first byte 0x00 (base58 starts
+// with '1'), first byte 0xff, last byte 0x00, and a base58 spelling that starts with 'z' (43 characters, about one
+// key in a thousand) - the shapes that expose re-encoding slips. Found by scanning a deterministic pool once.
+func OddEd25519() []*keys.Key {
+	oddMu.Lock()
+	defer oddMu.Unlock()
+	if oddKeys != nil {
+		return oddKeys
+	}
+	preds := []func(x []byte, b58 string) bool{
+		func(x []byte, _ string) bool { return x[0] == 0 },
+		func(x []byte, _ string) bool { return x[0] == 0xff },
+		func(x []byte, _ string) bool { return x[31] == 0 },
+		func(_ []byte, b string) bool { return b[0] == 'z' },
+		func(_ []byte, b string) bool { return len(b) < 44 },
+	}
+	found := make([]int, len(preds))
+	for i := 1; i <= 20000; i++ {
+		k := keys.Get(keys.Ed25519, "dockey-odd", i)
+		x, _ := k.XY()
+		b := refdoc.Base58(x)
+		keep := false
+		for j, p := range preds {
+			if found[j] < 2 && p(x, b) {
+				found[j]++
+				keep = true
+			}
+		}
+		if keep {
+			oddKeys = append(oddKeys, k)
+		}
+		done := true
+		for _, f := range found {
+			if f < 2 {
+				done = false
+			}
+		}
+		if done {
+			break
+		}
+	}
+	return oddKeys
+}
 
 // Key types and purposes of document public keys.
 var (
@@ -70,6 +121,9 @@ func DocKey(t *rapid.T, id string) map[string]interface{} {
 	switch typ {
 	case "Ed25519VerificationKey2018", "Ed25519VerificationKey2020":
 		k["publicKeyJwk"] = keys.Get(keys.Ed25519, "dockey", idx).JWKMap()
+		if odd := OddEd25519(); len(odd) > 0 && rapid.IntRange(0, 2).Draw(t, "oddEd25519") == 0 {
+			k["publicKeyJwk"] = rapid.SampledFrom(odd).Draw(t, "oddKey").JWKMap()
+		}
 	case "EcdsaSecp256k1VerificationKey2019":
 		k["publicKeyJwk"] = keys.Get(keys.Secp256k1, "dockey", idx).JWKMap()
 	case "JsonWebKey2020":
